@@ -34,7 +34,7 @@ func (n *KapacitorLoopbackNode) Build(k *pipeline.KapacitorLoopbackNode) (ast.No
 	}
 	sort.Strings(tagKeys)
 	for _, key := range tagKeys {
-		n.Dot("tag", key, k.Tags[key])
+		n.DotZeroValueOK("tag", key, k.Tags[key])
 	}
 
 	return n.prev, n.err
